@@ -132,9 +132,11 @@ Theorem compiled_order_is_ranking : forall prog order w g o es,
 Proof. exact InternWf.compile_ranked'. Qed.
 Print Assumptions compiled_order_is_ranking.
 
-(* A wired program is rejected as cyclic exactly when its rank graph has a cycle. *)
-Theorem compile_rejects_exactly_cycles : forall prog order w g,
-  wire_prog true prog order = Ok w -> rgraph_of w = Some g ->
+(* A wired program is rejected as cyclic exactly when the rank graph finish builds — the wired state
+   with the service rank dependencies applied — has a cycle. *)
+Theorem compile_rejects_exactly_cycles : forall prog order w sv g,
+  wire_prog true prog order = Ok w -> collect_svc prog order (w_env w) svc0 = Ok sv ->
+  rgraph_of (finalize w sv) = Some g ->
   (compile prog order = Rejected E_CYCLE <-> cyclic g /\ ~ has_push_dep g).
 Proof. exact InternWf.compile_rejects_cycle'. Qed.
 Print Assumptions compile_rejects_exactly_cycles.
